@@ -1,6 +1,8 @@
 package extractor
 
 import (
+	"fmt"
+
 	"github.com/grafov/m3u8"
 	"github.com/internetarchive/Zeno/pkg/models"
 )
@@ -12,6 +14,14 @@ func IsM3U8(URL *models.URL) bool {
 
 func M3U8(URL *models.URL) (assets []*models.URL, err error) {
 	defer URL.RewindBody()
+
+	// The playlist decoder can panic on malformed input (e.g. nil dereference on a
+	// truncated #EXT-X-KEY tag): a bad body must only cost this URL, not the crawler.
+	defer func() {
+		if r := recover(); r != nil {
+			assets, err = nil, fmt.Errorf("panic while decoding M3U8 playlist: %v", r)
+		}
+	}()
 
 	var rawAssets ([]string)
 
